@@ -607,6 +607,93 @@ def rollback_rule(rep, mod, tagD):
     return found
 
 
+def rollback_exact(rep, mod, tagD, prop="R09", n=3):
+    """Exact range of the roll-back in the element-construction helpers of detail/adl.hpp (pointer instantiations): the helper is interpreted with every
+    callee inlined down to the allocator's construct / destroy (external events), with count n (loops unrolled, n + 1 feasible paths).
+      normal path:       exactly the n consecutive slots dest, dest + 1, ... are constructed, once each, nothing is destroyed
+      throw at slot k:   exactly the k slots constructed so far are destroyed, once each, and the exception is rethrown"""
+    from . import absint
+    m = mod.mod
+    full = absint.Interp(m, inline_extra=re.compile(r"."), max_paths=4000, max_depth=120)
+    full.max_visits = n + 3
+    found = 0
+    step = None
+    for name, f in sorted(m.funcs.items(), key=lambda kv: kv[1].demangled):
+        d = absint.short(f.demangled)
+        if "operator()" in d or "{lambda" in d or "::_(" in d:
+            continue
+        mm = re.search(r"(?:^| )((?:xtd::)?(?:alloc_)?uninitialized_\w+)\(ObsAlloc&, (.*)\)", d)
+        if not mm or re.search(r"(?:^| )std::uninitialized", d):
+            continue
+        ptypes = [pt for pn, pt, sret in f.params]
+        sig = "%s(%s)" % (mm.group(1), mm.group(2))
+        key = "%s.exact@%s" % (prop, sig)
+        init_mem = {}
+        if mm.group(2) == "array_iterator, array_iterator, array_iterator" and len(ptypes) == 6 and ptypes[2] == "i64" and ptypes[4] == "i64" and step is not None:
+            # (first, last, d_first) as 1-D array iterators {pointer, stride}: first and last in registers, d_first by value in memory;
+            # unit strides, last = first + n
+            argv = [("p", ("param", 0), 0), ("p", ("param", 1), 0), ("c", 1), ("p", ("param", 1), n * step), ("c", 1), ("p", ("param", 5), 0)]
+            init_mem = {(("param", 5), 0): ("p", ("param", 6), 0), (("param", 5), 8): ("c", 1)}
+        elif all(pt == "i64" or pt.endswith("Tracked*") or pt.endswith("ObsAlloc*") for pt in ptypes) and "i64" in ptypes:
+            argv = [("c", n) if pt == "i64" else ("p", ("param", k), 0) for k, pt in enumerate(ptypes)]
+        else:
+            continue                          # other iterator instantiations of the same templates are not interpreted
+        try:
+            res = full.run(name, argv, init_mem)
+        except absint.Limit as e:
+            rep.inconclusive(key, prop + ".exact", "abstract interpretation bound hit: %s" % str(e)[:160])
+            continue
+        found += 1
+        bad = []
+        nthrow = 0
+        for oc, rv, path in res:
+            cons, dest, threw, rethrown, failed = [], [], None, False, set()
+            prev = None
+            for e in path.events:
+                if e[0] == "ext" and re.search(r"::construct[<(]", str(e[1])):
+                    cons.append(e[2][1] if len(e[2]) > 1 else None)
+                elif e[0] == "ext" and re.search(r"::destroy[<(]", str(e[1])):
+                    dest.append(e[2][1] if len(e[2]) > 1 else None)
+                elif e[0] == "throws":
+                    # the call recorded immediately before is the one that threw: a construct (its slot holds no object), or something else
+                    # (a temporary's constructor evaluated for the construct call): then every construct recorded so far succeeded
+                    threw = len(cons)
+                    if prev is not None and prev[0] == "ext" and re.search(r"::construct[<(]", str(prev[1])):
+                        failed.add(len(cons) - 1)
+                        threw = len(cons) - 1
+                elif e[0] == "throw":
+                    rethrown = True
+                prev = e
+            okc = [c for i, c in enumerate(cons) if i not in failed]
+            if oc == "ret":
+                if dest:
+                    bad.append("a normal path destroys elements")
+                offs = sorted(c[2] for c in okc if isinstance(c, tuple) and c[0] == "p")
+                regions = {c[1] for c in okc if isinstance(c, tuple) and c[0] == "p"}
+                if len(okc) != n or len(regions) != 1 or len(set(offs)) != n or offs[0] != 0 or any(b - a != offs[1] - offs[0] for a, b in zip(offs, offs[1:])):
+                    bad.append("the normal path constructs %s instead of %d consecutive slots" % ([typestate.short_t(c, 30) for c in okc], n))
+                elif step is None and n > 1:
+                    step = offs[1] - offs[0]
+            elif oc == "unwind":
+                nthrow += 1
+                if threw is None:
+                    continue                  # exception from something other than element construction: nothing constructed by this helper is known
+                if sorted(map(repr, dest)) != sorted(map(repr, okc)):
+                    bad.append("element construction throws at slot %d: constructed %s, destroyed %s" % (threw, [c[2] if isinstance(c, tuple) else c for c in okc],
+                                                                                                        [c[2] if isinstance(c, tuple) else c for c in dest]))
+                if not rethrown:
+                    bad.append("the exception is not rethrown after the roll-back")
+            else:
+                bad.append("a path ends in std::terminate")
+        if nthrow < n:
+            bad.append("only %d of the %d throwing paths were found" % (nthrow, n))
+        if bad:
+            rep.violated(key, prop + ".exact", "%s with %d elements (%s): %s" % (sig, n, tagD, sorted(set(bad))[0]), dict(function=f.demangled[:200], problems=sorted(set(bad))[:4]))
+        else:
+            rep.ok(key + "#" + tagD, prop + ".exact", None)
+    return found
+
+
 _reach_cache = {}
 
 
